@@ -3,6 +3,7 @@
 -/
 import AgpTpf.Model.Fasta
 import AgpTpf.Proofs.C03Wrap
+import AgpTpf.Proofs.SeekChk
 namespace AgpTpf.SeqProofs
 open AgpTpf
 
@@ -158,6 +159,11 @@ theorem sequenceBytes_slice {file res : Bytes} {off R M : Nat} (info : FastaInfo
       rw [e5]; push_cast; omega
     have hneg1 : ¬ (((off + M * (q1 + 1) : Nat) : Int) < 0) := by omega
     simp only [hp1, hneg1, if_false]
+    -- `R ≤ M`: the checked whole-lines loop is the unchecked one
+    have hchk : ∀ k acc, readWholeLinesChk file (R : Int) ((M : Int) - (R : Int)) k ((off + M * (q1 + 1) : Nat) : Int) acc =
+        .ok (readWholeLines file (R : Int) ((M : Int) - (R : Int)) k ((off + M * (q1 + 1) : Nat) : Int) acc) :=
+      fun k acc => readWholeLinesChk_nonneg file _ _ (by omega) k _ acc (by omega)
+    simp only [hchk]
     by_cases hre0 : re = 0
     · -- the last line is a whole line
       subst hre0
